@@ -50,7 +50,7 @@ SCENARIOS = ["doc_date", "doc_date_ctor", "uncertainty", "sec_card", "prop_card"
              "append_scalar", "setitem_wrong_kind", "setitem_out_of_range", "reorder_detached",
              "values_unconvertible", "dtype_unconvertible", "create_property_bad_values",
              "merge_unconvertible_empty_typed", "link_bad_after_good", "link_merge_refused",
-             "include_merge_refused", "include_bad_after_good"]
+             "include_merge_refused", "include_bad_after_good", "link_difftype_refused"]
 
 
 def _secs(doc):
@@ -153,13 +153,15 @@ def scenario_body(case):
             else:
                 dest.merge(sp, strict=False)
         elif name in ("link_bad_after_good", "link_merge_refused", "include_merge_refused",
-                      "include_bad_after_good"):
+                      "include_bad_after_good", "link_difftype_refused"):
             tgt = odml.Section(name="link-target", type="t", parent=doc)
             odml.Property(name="p", values=["abc"], dtype="string", unit="kg", parent=tgt)
             odml.Section(name="tsub", type="t", parent=tgt)
             lnk = odml.Section(name="linking", type="t", parent=sec if b % 2 else doc)
             if name.endswith("merge_refused"):
                 odml.Property(name="p", values=[1], dtype="int", parent=lnk)
+            if name == "link_difftype_refused":
+                odml.Section(name="tsub", type="another-type", parent=lnk)
             if name.startswith("include"):
                 tmpdir = env.fresh_dir("c06")
                 path = os.path.join(tmpdir, "inc.xml")
